@@ -109,9 +109,12 @@ func init() {
 		ID:        "dbgpar",
 		Technique: "debug",
 		Quick: func() []eng.Instance {
-			return []eng.Instance{
-				{Name: "dbgpar/Load||Delete;Store", Pkg: "xsync", Func: "VxH_Map_par12", Args: []int64{0, 7, 1, 1, 1, 1, 1}, Cfg: eng.Config{DefaultUnwind: 2, Rounds: 2}},
-			}
+			is := resizePar("dbgpar/MapOf", true, 0, []int{0, 1, 2, 5, 6, 7}, 1, 1, 2)
+			is = append(is, resizePar("dbgpar/MapOf", true, 1, []int{1, 7}, 2, 1, 2)...)
+			is = append(is, resizePar("dbgpar/Map", false, 0, []int{0, 1, 5, 7}, 1, 1, 2)...)
+			is = append(is, resizePar("dbgpar/Map", false, 1, []int{1}, 2, 0, 2)...)
+			is = append(is, resizePar("dbgpar/MapOf/r3", true, 0, []int{5}, 1, 0, 3)...)
+			return is
 		},
 	})
 }
@@ -353,6 +356,37 @@ func parCfgShrinkReq(rounds int) eng.Config {
 	return eng.Config{DefaultUnwind: 2, Rounds: rounds, NoResizeCall: map[int]bool{0: true}, NoResize: map[int]bool{1: true}}
 }
 
+// resizePar: a grow (hint 0) or shrink (hint 1) of the whole table, started
+// directly (m.resize, as doCompute and the delete path do), concurrent with one
+// operation on an arbitrary valid table. Map: args op,hint,tableLen,mode;
+// MapOf adds the number of symbolic slots per bucket.
+func resizePar(prefix string, of bool, hint int, ops []int, tableLen, mode, rounds int) []eng.Instance {
+	var is []eng.Instance
+	hn := []string{"grow", "shrink"}[hint]
+	for _, op := range ops {
+		fn, args := "VxH_Map_resizePar", []int64{int64(op), int64(hint), int64(tableLen), int64(mode)}
+		if of {
+			fn, args = "VxH_MapOf_resizePar", append(args, 1)
+		}
+		is = append(is, eng.Instance{Name: fmt.Sprintf("%s/%s||%s/pre%d", prefix, hn, mapOps[op], mode), Pkg: "xsync", Func: fn, Args: args,
+			Cfg: eng.Config{DefaultUnwind: 3, Rounds: rounds, NoResizeCall: map[int]bool{0: true, 1: true}}})
+	}
+	return is
+}
+
+func stalledGrow(prefix string, of bool, mode int) []eng.Instance {
+	var is []eng.Instance
+	for _, r := range []int{0, 2, 10} {
+		fn, args := "VxH_Map_stalledGrow", []int64{int64(r), int64(mode)}
+		if of {
+			fn, args = "VxH_MapOf_stalledGrow", append(args, int64(mode))
+		}
+		is = append(is, eng.Instance{Name: fmt.Sprintf("%s/writer=grow/reader=%s", prefix, mapOps[r]), Pkg: "xsync", Func: fn, Args: args,
+			Cfg: eng.Config{DefaultUnwind: 9, Rounds: 1, NoResizeCall: map[int]bool{0: true, 1: true}}})
+	}
+	return is
+}
+
 func mapPar2(prefix, fn string, pairs [][2]int, extra []int64, rounds int) []eng.Instance {
 	var is []eng.Instance
 	for _, p := range pairs {
@@ -524,10 +558,16 @@ func init() {
 		Technique: "bounded symbolic execution with a symbolic stall point: the writer's go/ssa code runs a free-length prefix of its visible operations (incl. a yield inside its user function, i.e. while holding the bucket lock), then the reader runs alone; any disabled blocking operation or spin of the reader is a violation; result must be the value before or after the writer's operation",
 		Bounds:    map[string]interface{}{"writer_prefix": "any number of visible operations (symbolic)", "table": "1 root bucket, <=2 pre-state entries", "readers": "Load, LoadOrStore hit path, Size", "unwind": 3},
 		Stubs:     commonStubs,
-		Outside:   []string{"writers in the middle of a grow/shrink copy (Clear is included)", "writers in the middle of a table copy"},
+		Outside:   []string{"writers stalled in the middle of a shrink copy (a stalled grow 1->2 buckets and Clear are included)", "tables with more than 1 root bucket"},
 		Quick: func() []eng.Instance {
 			is := stalled("C16/Map", "VxH_Map_stalled", []int64{1, 1, 1, 2})
 			is = append(is, stalled("C16/MapOf", "VxH_MapOf_stalled", []int64{1, 1, 1, 2, 2})...)
+			// keys that live in an overflow bucket of the chain (holes allowed: one symbolic slot per bucket)
+			is = append(is, stalled("C16/Map(chain2)", "VxH_Map_stalled", []int64{1, 2, 1, 2})...)
+			is = append(is, stalled("C16/MapOf(chain2)", "VxH_MapOf_stalled", []int64{1, 2, 1, 2, 1})...)
+			// a grow stalled anywhere between its CAS on the resizing flag and the publication of the new table
+			is = append(is, stalledGrow("C16/Map", false, 2)...)
+			is = append(is, stalledGrow("C16/MapOf", true, 2)...)
 			// cache level on the real stack
 			idx := func(n string) int64 {
 				for i, c := range cacheOps {
@@ -555,6 +595,9 @@ func init() {
 			is := stalled("C16/Map", "VxH_Map_stalled", []int64{1, 1, 1, 3})
 			is = append(is, stalled("C16/Map(chain2)", "VxH_Map_stalled", []int64{1, 2, 1, 3})...)
 			is = append(is, stalled("C16/MapOf", "VxH_MapOf_stalled", []int64{1, 1, 1, 3, 3})...)
+			is = append(is, stalled("C16/MapOf(chain2)", "VxH_MapOf_stalled", []int64{1, 2, 1, 3, 2})...)
+			is = append(is, stalledGrow("C16/Map", false, 3)...)
+			is = append(is, stalledGrow("C16/MapOf", true, 3)...)
 			return is
 		},
 	})
